@@ -500,7 +500,16 @@ def eval_abort_case(case):
         r = pr.cond(argv, timeout=40, audit=audit, poll=poll)
         t_exit = time.monotonic_ns()
         sent = (ctl.injected is not None) if ctl else (state["sent"] is not None and not r["timed_out"])
-        W = {"engine": "E1", "case": case, "argv": argv, "result": cli.brief(r, 1200), "injected": ctl.injected if ctl else state["sent"]}
+        kills = []
+        try:
+            for line in open(audit):
+                a = json.loads(line)
+                if a["ev"] in ("os.killpg", "os.kill", "subprocess.Popen"):
+                    kills.append([a["t"], a["ev"], a["args"][:2] if a["ev"] != "subprocess.Popen" else a.get("cond_env", {}).get("COND_OUT")])
+        except (OSError, ValueError):
+            pass
+        W = {"engine": "E1", "case": case, "argv": argv, "result": cli.brief(r, 1200), "injected": ctl.injected if ctl else state["sent"], "conductor_side_events": kills[-40:],
+             "probe_events": [{k: e.get(k) for k in ("kind", "task", "pid", "t", "code")} for e in pr.events()][-40:]}
         if r["timed_out"]:
             out["inconclusive"].append({"why": "E1 abort run timed out", "detail": cli.brief(r)})
         elif not sent or (r.code == 0 and "aborted" not in r.err and case["mode"] == "burst" and "Done!" in r.out and state["sent"] and False):
@@ -528,9 +537,12 @@ def eval_abort_case(case):
                 out["violations"].append({"key": "C16:exit-0-after-abort", "msg": "[real signal] %s with %d task(s) in flight: cond run exited 0" % (case["signal"], len(live_at_signal)), "witness": W})
             elif "aborted" not in r.err:
                 out["violations"].append({"key": "C16:abort-not-reported", "msg": "[real signal] exit %s, stderr %r" % (r.code, r.err[-300:]), "witness": W})
+            sent_term = {k0[2][0] for k0 in kills if k0[1] in ("os.killpg", "os.kill") and isinstance(k0[2], list) and len(k0[2]) > 1 and k0[2][1] == 15}
             for pid in live_at_signal:
                 out["reach"]["c16_e1_child_checks"] = out["reach"].get("c16_e1_child_checks", 0) + 1
-                if pid in terms:
+                if pid in terms or pid in sent_term:
+                    # the task logged the SIGTERM, or Conductor's own audit trail shows killpg(pid, SIGTERM)
+                    # (each task is its own process-group leader) - what the task then does is its business
                     continue
                 if pid in alive or (pid in ends and ends[pid]["t"] > t_exit):
                     out["violations"].append({"key": "C16:running-task-not-sent-SIGTERM", "msg": "[real signal] task %s (pid %d) was started, never received SIGTERM and was still running after cond run returned" % (starts[pid]["task"], pid), "witness": W})
